@@ -94,10 +94,19 @@ def kdKnnQ (m : Metric P α) (dim qdim : Nat) (q : P) (k : Nat) (pts : List (Pt 
     Except NnErr (List (Pt P)) :=
   if dim ≠ qdim then .error .wrongDimension else .ok (linearKnn m q k pts)
 
+/-- contract of `kdtree::KdTree::within(point, radius, rdistance)`: every stored point with
+`rdist ≤ radius`, in ascending order, tagged with its reduced distance -/
+def kdWithin (m : Metric P α) (q : P) (radius : α) (pts : List (Pt P)) : List (α × Pt P) :=
+  (linearKnnTagged m q pts.length pts).filter fun e => e.1 ≤ radius
+
+/-- `KdTreeIndex::within_range`: `let range = dist_to_rdist(range); within(point, range, rdistance)`
+followed by linfa's own `.filter(|(dist, _)| *dist < range)` (the border repair) and the projection
+on `(point, position)` -/
 def kdRangeQ (m : Metric P α) (dim qdim : Nat) (q : P) (r : α) (pts : List (Pt P)) :
     Except NnErr (List (Pt P)) :=
   if dim ≠ qdim then .error .wrongDimension else
-    .ok (((linearKnnTagged m q pts.length pts).filter fun e => e.1 < m.toR r).map (·.2))
+    let range := m.toR r
+    .ok (((kdWithin m q range pts).filter fun e => e.1 < range).map (·.2))
 
 /-! ### ball tree -/
 
